@@ -5,9 +5,8 @@ CONSTANT Ops <- AllOps
 CONSTANT FullThird = FALSE
 CONSTANT CrossTag = FALSE
 INVARIANT TypeOK
-INVARIANT OrderIsTotal
-INVARIANT SpellingFree
 INVARIANT UnitsAgree
+INVARIANT OnePassIsDeclarative
 INVARIANT RefNeverRemoved
 INVARIANT AltRemovedIffFails
 INVARIANT MaskedIffRefFailsOrFlagged
